@@ -9,6 +9,7 @@ import (
 	"net/netip"
 	"os"
 	"reflect"
+	"sort"
 	"strconv"
 	"strings"
 	"time"
@@ -896,7 +897,99 @@ func c20Views(t *c20, e gen.Env) {
 			if pi == nil {
 				c.Class("entry:DNSEntry")
 			}
+			c20DNSEntry(t, r, ent)
 		}
 	}
 	go s.Close()
+}
+
+// c20DNSEntry: the rendering of a DNS table entry is the name followed by its three record lists, each list holding exactly the
+// records of its own kind (in any order: they live in maps). The decoded entry is enriched with random records so that all
+// three lists are populated together; only entries whose text fits the line buffer are judged.
+func c20DNSEntry(t *c20, r *rand.Rand, ent packet.DNSEntry) {
+	c := t.c
+	for k := r.Intn(4); k > 0; k-- {
+		ip := netip.AddrFrom4([4]byte{byte(1 + r.Intn(223)), byte(r.Intn(256)), byte(r.Intn(256)), byte(r.Intn(256))})
+		ent.IP4Records[ip] = packet.IPResourceRecord{Name: ent.Name, IP: ip, TTL: uint32(r.Intn(5000))}
+	}
+	for k := r.Intn(4); k > 0; k-- {
+		var a [16]byte
+		a[0], a[1], a[15] = 0x20, 0x01, byte(1+r.Intn(255))
+		for j := r.Intn(4); j > 0; j-- {
+			a[2+r.Intn(13)] = byte(r.Intn(256))
+		}
+		ip := netip.AddrFrom16(a)
+		ent.IP6Records[ip] = packet.IPResourceRecord{Name: ent.Name, IP: ip, TTL: uint32(r.Intn(5000))}
+	}
+	for k := r.Intn(3); k > 0; k-- {
+		cn := fmt.Sprintf("alias%d.example.net", r.Intn(1000))
+		ent.CNameRecords[cn] = packet.NameResourceRecord{Name: ent.Name, CName: cn, TTL: uint32(r.Intn(5000))}
+	}
+	want := map[string][]string{}
+	size := len(c20Prefix) + 16 + len(ent.Name)
+	clean := !strings.ContainsAny(ent.Name, "\"[]")
+	for ip := range ent.IP4Records {
+		want["ip4"] = append(want["ip4"], ent.IP4Records[ip].IP.String())
+	}
+	for ip := range ent.IP6Records {
+		want["ip6"] = append(want["ip6"], ent.IP6Records[ip].IP.String())
+	}
+	for n := range ent.CNameRecords {
+		v := ent.CNameRecords[n].CName
+		clean = clean && !strings.ContainsAny(v, "\"[]")
+		want["cname"] = append(want["cname"], v)
+	}
+	for _, l := range want {
+		for _, v := range l {
+			size += len(v) + 4
+		}
+	}
+	size += 3 * 12
+	if !clean || size > lineBuf-64 || len(want["ip4"])+len(want["ip6"])+len(want["cname"]) > 16 {
+		return
+	}
+	c.Eval()
+	var got string
+	cs := func() any {
+		return map[string]any{"index": t.idx, "name": ent.Name, "ip4": want["ip4"], "ip6": want["ip6"], "cname": want["cname"], "got": got}
+	}
+	if c.Guard("C20", cs, func() { got = c20Logger.Msg("d").Struct(ent).ToString() }) != nil {
+		return
+	}
+	rest := got
+	for _, f := range []string{"ip4", "ip6", "cname"} {
+		i := strings.Index(rest, " "+f+"=[")
+		j := -1
+		if i >= 0 {
+			j = strings.Index(rest[i:], "]")
+		}
+		if i < 0 || j < 0 {
+			c.Viol("fmt:DNSEntry:"+f+":missing", fmt.Sprintf("no %s list in the rendering of a DNS entry that fits the buffer: %q", f, got), cs())
+			return
+		}
+		body := rest[i+len(f)+3 : i+j]
+		rest = rest[i+j+1:]
+		var have []string
+		for _, el := range strings.Split(body, ",") {
+			if el = strings.TrimSpace(el); el != "" {
+				have = append(have, strings.Trim(el, "\""))
+			}
+		}
+		w := append([]string(nil), want[f]...)
+		sort.Strings(w)
+		sort.Strings(have)
+		if !reflect.DeepEqual(w, have) && (len(w) > 0 || len(have) > 0) {
+			c.Viol("fmt:DNSEntry:"+f+":elements", fmt.Sprintf("the %s list of a DNS entry is rendered as %q, its records of that kind are %q", f, have, w), cs())
+			return
+		}
+	}
+	if !strings.Contains(got, " name=\""+ent.Name+"\"") && !strings.Contains(got, " name="+ent.Name) {
+		c.Viol("fmt:DNSEntry:name", fmt.Sprintf("the entry name %q is not in the rendering %q", ent.Name, got), cs())
+		return
+	}
+	c.Obs("dns_entries_rendered_against_their_records", 1)
+	if len(want["ip4"]) > 0 && len(want["ip6"]) > 0 && len(want["cname"]) > 0 {
+		c.Obs("dns_entries_with_all_three_lists", 1)
+	}
+	c.Class(fmt.Sprintf("entry:DNSEntry:%d/%d/%d", min(len(want["ip4"]), 2), min(len(want["ip6"]), 2), min(len(want["cname"]), 2)))
 }
